@@ -186,6 +186,25 @@ func ReturningScripts() []Script {
 		RoundStep(KApproveQuitSC, idStr(1), "returning/applied-earlier"),
 		RoundStep(KApproveUpdateSC, idStr(1), "returning/applied-earlier"),
 	}, Tail: 10})
+	// side chain: an update request and a quit request pending together; each approval consumes its
+	// own request only, so after the chain id returns neither old request can be applied again
+	out = append(out, Script{Name: "side_chain-quit-while-update-pending", Steps: []Step{
+		regChain(1, ownerN(0)), RoundStep(KApproveRegisterSC, idStr(1), "first-incarnation"),
+		updChain(1, ownerN(0)), quitChain(1, ownerN(0)),
+		RoundStep(KApproveQuitSC, idStr(1), "quit-with-update-pending"),
+		regChain(1, ownerN(1)), RoundStep(KApproveRegisterSC, idStr(1), "second-incarnation"),
+		RoundStep(KApproveQuitSC, idStr(1), "returning/applied-earlier"),
+	}, Tail: 10})
+	out = append(out, Script{Name: "side_chain-update-while-quit-pending", Steps: []Step{
+		regChain(2, ownerN(0)), RoundStep(KApproveRegisterSC, idStr(2), "first-incarnation"),
+		quitChain(2, ownerN(0)), updChain(2, ownerN(0)),
+		RoundStep(KApproveUpdateSC, idStr(2), "update-with-quit-pending"),
+		RoundStep(KApproveUpdateSC, idStr(2), "second-round/applied-earlier"),
+		RoundStep(KApproveQuitSC, idStr(2), "quit-after-update"),
+		regChain(2, ownerN(1)), RoundStep(KApproveRegisterSC, idStr(2), "second-incarnation"),
+		RoundStep(KApproveQuitSC, idStr(2), "returning/applied-earlier"),
+		RoundStep(KApproveUpdateSC, idStr(2), "returning/applied-earlier"),
+	}, Tail: 10})
 	// relayer: admitted, removed, admitted again, removed again; rounds of the second-incarnation ids
 	{
 		var reg2, rem2 capture
